@@ -196,8 +196,19 @@ class PublicPair(Driver):
         canonical = None not in pair and 0 <= pair[0] < P and 0 <= pair[1] < P
         oncurve = canonical and ec.on_curve(pair, P, 0, 7)
         ok, k = _try(nw.keys.public, pair)
-        if None in pair or (not canonical and None not in pair):
+        if None in pair:
             return OK("recorded:%s:%s" % (case["variant"], "accepted" if ok else exc_name(k)))
+        if not canonical:
+            # a coordinate >= p: refusing is fine; if a key is made of it, that key must still round-trip through SEC
+            if not ok:
+                return OK("refused:%s:%s" % (case["variant"], exc_name(k)))
+            for comp in (True, False):
+                ok2, k2 = _try(lambda: nw.keys.public(k.sec(is_compressed=comp)))
+                if not ok2 or tuple(k2.public_pair()) != tuple(k.public_pair()) or k2.address(is_compressed=comp) != k.address(is_compressed=comp):
+                    return BAD("unreduced-pair-accepted", "a key that round-trips through its own SEC encoding (or InvalidPublicPairError)",
+                               "key with public pair %r; keys.public(key.sec(compressed=%s)) -> %s" % (tuple(k.public_pair()), comp,
+                               k2 if not ok2 else tuple(k2.public_pair())), clause="public-pair-unreduced")
+            return OK("accepted-roundtrips:%s" % case["variant"])
         if oncurve:
             if not ok or tuple(k.public_pair()) != pair or k.sec() != refsec.encode(pair, True):
                 return BAD("reject-vs-accept", "key for on-curve pair", repr(k), clause="public-pair")
